@@ -160,15 +160,18 @@ CLAIMED = {
         "design_ref": "DESIGN.md §6 C14",
     },
     "C02": {
-        "text": "Lean 4 theorems (Props/C02.lean): int(str(n)) = n for every integer (C02_int_text_roundtrip), Integer accepts exactly the integer literals inside the "
-                "valid range and returns their value (C02_integer, C02_integer_rule via C01), Choice / Constant / Text by exact membership, Decimal separator "
-                "handling (decimal separator -> point, thousands separators only before it, one decimal separator). DateTime (strptime incl. regex alternation "
-                "order, calendar, year pivot), Pattern (fnmatch.translate), RegEx (subset) and length-derived integer ranges are modelled and checked by "
-                "correspondence: per-type rule grammars, member and mutated cells, all length declarations over 0..3 x all integers of <= 4 characters "
-                "(quick; 0..5 x <= 6 characters thorough), 4 formats.",
-        "note": "Trusted: Lean kernel; model faithfulness (7.9M cell evaluations in the thorough tier without a disagreement); acceptance theorems for DateTime, Pattern, "
-                "RegEx and for the text built by create_range_from_length are not proved yet (correspondence + the harness's own arithmetic reading).",
-        "technique": "Lean 4 proof (digits, range membership, separator translation) + exhaustive/generated differential correspondence",
+        "text": "Lean 4 theorems (Props/C02.lean): int(str(n)) = n for every integer within CPython's 4300-digit conversion limit and refusal beyond it "
+                "(C02_int_text_roundtrip, C02_int_text_beyond_limit), Integer accepts exactly the integer literals inside the valid range and returns their "
+                "value (C02_integer, C02_integer_rule via C01), C02_int_length: for every well-formed length declaration create_range_from_length - which "
+                "writes a text of nines and zeros and parses it again - yields a range accepting exactly the integers whose decimal text has an allowed "
+                "length (Proofs/LengthRange.lean: digit-count arithmetic, text equality with the rendered description, disjointness by a semantic argument, "
+                "then C01's parse theorem); Choice / Constant / Text by exact membership, Decimal separator handling (decimal separator -> point, "
+                "thousands separators only before it, one decimal separator). DateTime (strptime incl. regex alternation order, calendar, year pivot), "
+                "Pattern (fnmatch.translate) and RegEx (subset) are modelled and checked by correspondence: per-type rule grammars, member and mutated "
+                "cells, all length declarations over 0..3 x all integers of <= 4 characters (quick; 0..5 x <= 6 characters thorough), 4 formats.",
+        "note": "Trusted: Lean kernel; model faithfulness (7.9M cell evaluations in the thorough tier without a disagreement); acceptance theorems for DateTime, "
+                "Pattern and RegEx are not proved (correspondence only).",
+        "technique": "Lean 4 proof (digits, range membership, length-derived ranges through the range parser, separator translation) + exhaustive/generated differential correspondence",
         "design_ref": "DESIGN.md §6 C02",
     },
     "C09": {
